@@ -13,7 +13,8 @@ PROPS = {
     "C06": {"suites": SEQ("C06", 1500, 60000), "design": "6/C06"},
     "C07": {"suites": SEQ("C07", 1500, 60000), "design": "6/C07"},
     "C08": {"suites": {"quick": SEQ("C08", 1500, 60000)["quick"] + [("stress", {"count": 1000})], "thorough": SEQ("C08", 1500, 60000)["thorough"] + [("stress", {"count": 20000})]}, "design": "6/C08"},
-    "C11": {"suites": SEQ("C11", 1500, 60000), "design": "6/C11"},
+    "C11": {"suites": {"quick": SEQ("C11", 1500, 60000)["quick"] + [("conn", {"profile": "C11", "count": 20, "tier": "quick"})],
+                       "thorough": SEQ("C11", 1500, 60000)["thorough"] + [("conn", {"profile": "C11", "count": 400, "tier": "thorough"})]}, "design": "6/C11"},
     "C19": {"suites": {"quick": [("seq", {"profile": "C19", "count": 1000})], "thorough": [("seq", {"profile": "C19", "count": 40000})]}, "design": "6/C19"},
 }
 
@@ -31,7 +32,9 @@ PROPS.update({
 
 POLICY = lambda prof, q, t: {"quick": [("policy", {"profile": prof, "count": q}), ("stress", {"count": 1000})], "thorough": [("policy", {"profile": prof, "count": t}), ("stress", {"count": 20000})]}
 PROPS.update({
-    "C14": {"suites": POLICY("C14", 600, 30000), "design": "6/C14", "projection": core.policy_projection()},
+    "C14": {"suites": {"quick": POLICY("C14", 600, 30000)["quick"] + [("sched", {"profile": "C14", "count": 60, "per_case": 40})],
+                       "thorough": POLICY("C14", 600, 30000)["thorough"] + [("sched", {"profile": "C14", "count": 2000, "per_case": 400})]},
+            "design": "6/C14", "projection": core.policy_projection()},
     "C15": {"suites": POLICY("C15", 300, 10000), "design": "6/C15", "projection": core.policy_projection()},
 })
 
@@ -61,7 +64,7 @@ PROPS.update({
 })
 
 PROPS.update({
-    "C20": {"suites": {"quick": [("config", {"tier": "quick"})], "thorough": [("config", {"tier": "thorough"})]}, "design": "6/C20", "needs_memcrsd": True},
+    "C20": {"suites": {"quick": [("config", {"tier": "quick"}), ("seq", {"profile": "C20", "count": 800})], "thorough": [("config", {"tier": "thorough"}), ("seq", {"profile": "C20", "count": 40000})]}, "design": "6/C20", "needs_memcrsd": True},
 })
 
 RULE_CONFIG = ("config: the real memcrsd binary (built from /repo's working tree) is started as a child process under {current-thread, multi-thread} x threads {1,2,8} x "
